@@ -26,4 +26,14 @@ MUTANTS = {
         ('no_cond_sub', [('librfn/rand.c', "	if (lo > 0x7fffffff)\n		lo -= 0x7fffffff;\n", "")]),
         ('one_state', [('librfn/rand.c', "	return (*seedp = lo);", "	if (lo == 1043618065) lo ^= 2;\n	return (*seedp = lo);")]),
     ],
+    'C12': [
+        ('pack_lt', [('librfn/pack.c', "	pack->p += sz; \\\n	if (pack->p <= pack->endp)", "	pack->p += sz; \\\n	if (pack->p < pack->endp)")]),
+        ('u16le_swapped', [('librfn/pack.c', "void rf_pack_u16le(rf_pack_t *pack, uint16_t u16)\n{\n	PACK(pack, p, 2) {\n		p[0] = u16 & 0xff;\n		p[1] = (u16 >> 8) & 0xff;", "void rf_pack_u16le(rf_pack_t *pack, uint16_t u16)\n{\n	PACK(pack, p, 2) {\n		p[1] = u16 & 0xff;\n		p[0] = (u16 >> 8) & 0xff;")]),
+        ('unpack_no_bound', [('librfn/pack.c', "	if (pack->p > pack->endp) \\\n		return 0; \\\n	else", "	if (0) \\\n		return 0; \\\n	else")]),
+        ('unpack_bytes_no_zero_fill', [('librfn/pack.c', "	} else {\n		if (p)\n			memset(p, 0, sz);\n	}", "	}")]),
+        ('s16le_high_no_shift', [('librfn/pack.c', "		p[0] = s16 & 0xff;\n		p[1] = (s16 >> 8) & 0xff;", "		p[0] = s16 & 0xff;\n		p[1] = s16 & 0xff;")]),
+        ('unpack_gt_eq', [('librfn/pack.c', "	if (pack->p > pack->endp) \\", "	if (pack->p >= pack->endp) \\")]),
+        ('remaining_clamped', [('librfn/pack.c', "	return pack->endp - pack->p;", "	return pack->endp > pack->p ? pack->endp - pack->p : 0;")]),
+        ('u32le_unpack_byte3', [('librfn/pack.c', "p[2] << 16 | p[3] << 24;", "p[2] << 16 | (p[3] & 0x7f) << 24;")]),
+    ],
 }
